@@ -96,7 +96,7 @@ Definition class_C08 (c : case) : nat :=
   | CWhole base tr layers laa _ _ _ _ =>
       match class_layers laa layers with
       | 0%nat => match class_C07 base tr with
-                 | 0%nat => if cls_ambiguous base layers then 10%nat else 0%nat
+                 | 0%nat => if cls_ambiguous base layers || cls_ambiguous2 base layers then 10%nat else 0%nat
                  | k => (6 + k)%nat     (* 7, 8, 9: the C07 classes on the base graph, all repaired (class_C07 = 0) *)
                  end
       | k => k
